@@ -217,6 +217,30 @@ pub fn c01(tier: Tier) -> Vec<Case> {
     insensitive_mixed_family(&mut b, tier);
     long_family(&mut b, tier);
     wide_choice_family(&mut b, "wide-choice");
+    // included rules whose body is a single token / rule call / choice of those, carrying the opposite skip mode of the
+    // includer (the mode of the includer counts)
+    {
+        let inputs = InputSpec::Strings { alphabet: vec!['b', 'c', ' '], max_len: if tier == Tier::Quick { 5 } else { 6 } };
+        let atoms = vec![lit("b"), inc("I1"), inc("I2"), inc("I3"), inc("I4")];
+        for e in trees(&atoms, &NO_LOOKAHEAD_OPS, if tier == Tier::Quick { 3 } else { 4 }) {
+            for root_noskip in [false, true] {
+                let nd = |on: bool| if on { vec![Directive::NoSkipWs] } else { vec![] };
+                let leaves = vec![
+                    Rule::normal("I1", nd(!root_noskip), lit("c")),
+                    Rule::normal("I2", nd(!root_noskip), choice(vec![lit("c"), seq(vec![lit("b"), lit("b")])])),
+                    Rule::normal("I3", nd(!root_noskip), rref("X")),
+                    Rule::normal("I4", nd(!root_noskip), seq(vec![lit("c"), lit("b")])),
+                    Rule::normal("X", vec![Directive::Position], choice(vec![lit("b"), seq(vec![lit("c"), lit("b")])])),
+                ];
+                let mut dirs = vec![Directive::Export, Directive::Position];
+                if root_noskip {
+                    dirs.push(Directive::NoSkipWs);
+                }
+                let g = root_grammar(dirs, e.clone(), &leaves);
+                add_if_wf(&mut b, "includes", g, &inputs);
+            }
+        }
+    }
     // @leftrec rules are part of the quantifier: the left-recursive corpus (thinned), judged on acceptance and consumed bytes
     for (i, c) in super::e1b::c07(Tier::Quick).into_iter().enumerate() {
         if c.family.starts_with("leftrec/usual") && i % 4 != 0 {
@@ -324,6 +348,32 @@ pub fn c12(tier: Tier) -> Vec<Case> {
                 l.extend(leaves.iter().cloned());
                 let g = root_grammar(vec![Directive::Export, Directive::NoSkipWs, Directive::Position], seq(vec![field("r", "R"), opt(field("t", "R"))]), &l);
                 add_if_wf(&mut b, "directive-semantics", g, &inputs);
+            }
+        }
+    }
+    // literals written next to each other with and without the case marker, with and without redundant parentheses:
+    // each literal keeps its own marker
+    {
+        let inputs = InputSpec::Strings { alphabet: vec!['k', 'K', 'z', 'Z'], max_len: 4 };
+        let lits = vec![lit("k"), ilit("k"), lit("z"), ilit("z"), ilit("kz"), lit("Z")];
+        for a in &lits {
+            for b2 in &lits {
+                for third in [None, Some(lit("k")), Some(ilit("Z"))] {
+                    for paren in [false, true] {
+                        let mut parts = vec![a.clone(), if paren { Expr::Group(Box::new(b2.clone())) } else { b2.clone() }];
+                        if let Some(t) = &third {
+                            parts.push(t.clone());
+                        }
+                        for noskip in [true, false] {
+                            let mut dirs = vec![Directive::Export, Directive::Position];
+                            if noskip {
+                                dirs.push(Directive::NoSkipWs);
+                            }
+                            let g = root_grammar(dirs, seq(parts.clone()), &[]);
+                            add_if_wf(&mut b, "literal-sequences", g, &inputs);
+                        }
+                    }
+                }
             }
         }
     }
@@ -604,6 +654,32 @@ pub fn c02(tier: Tier) -> Vec<Case> {
                         add_if_wf(&mut b, "string-bodies", g, &spec);
                     }
                 }
+            }
+        }
+    }
+    // @char rules that deliver the character into the tree (fields, overrides, closures): twin-case ranges, single
+    // characters, nested classes; the value is the character that was consumed
+    {
+        let lc = |c: char| LitChar::canon(c);
+        let spec = InputSpec::Strings { alphabet: vec!['a', 'b', 'B', 'C', 'c', 'é'], max_len: if tier == Tier::Quick { 4 } else { 5 } };
+        let classes: Vec<Vec<CharPart>> = vec![
+            vec![CharPart::Range(lc('a'), lc('c')), CharPart::Range(lc('A'), lc('C'))],
+            vec![CharPart::Range(lc('A'), lc('C')), CharPart::Range(lc('a'), lc('c'))],
+            vec![CharPart::Char(lc('b')), CharPart::Char(lc('B'))],
+            vec![CharPart::Range(lc('a'), lc('b')), CharPart::Ident("U".into())],
+            vec![CharPart::Range(lc('A'), lc('é'))],
+        ];
+        let u = Rule::chr("U", vec![CharPart::Range(lc('A'), lc('B')), CharPart::Char(lc('é'))]);
+        for cl in classes {
+            for body in [
+                seq(vec![field("h", "H"), star(field("t", "H"))]),
+                seq(vec![star(field("t", "H")), opt(field("c", "char"))]),
+                seq(vec![field("r", "R"), opt(field("h", "H"))]),
+                choice(vec![seq(vec![field("h", "H"), field("g", "H")]), field("h", "U")]),
+            ] {
+                let rules = vec![Rule::chr("H", cl.clone()), u.clone(), Rule::normal("R", vec![Directive::NoSkipWs], choice(vec![over("H"), over("char")]))];
+                let g = root_grammar(vec![Directive::Export, Directive::NoSkipWs], body, &rules);
+                add_if_wf(&mut b, "char-values", g, &spec);
             }
         }
     }
